@@ -82,12 +82,14 @@ def make_run(strategy, jobs, script, mutset, tier,
         S = b['Sreq']
     nbits = V + (S if jobs > 1 else 0)
 
+    reserved = V if oracle.startswith('hash') else 0
+
     def once(vec):
-        d = Decider(nbits, replay=list(vec))
+        d = Decider(nbits - reserved, replay=list(vec), reserved=reserved)
         r = body(d, strategy, jobs, V, script, mutset, checker_fn, oracle)
         if r == 'runaway':
-            return 'skip', len(d.log)
-        return r, len(d.log)
+            return 'skip', d.read
+        return r, d.read
 
     def run():
         from vlib.engine import explore_choices
@@ -169,11 +171,16 @@ def replay(part, cex, checker_fn=SC.check_chain):
         part[part.rindex('_') + 1:] if '_hash' in part else 'first')
     tier = os.environ.get('VERIF_TIER_REPLAY', 'quick')
     b = bounds(tier)
-    d = Decider(10 ** 6, replay=cex['bits'])
     jobs = int(j[1:])
+    V = b['V'] if jobs == 1 else b['Vpar']
+    if oracle in ('req', 'same'):
+        V = len(SC.KEYS[sc])
+    elif oracle.startswith('hash'):
+        V = b['Vhash']
+    d = Decider(10 ** 6, replay=cex['bits'],
+                reserved=V if oracle.startswith('hash') else 0)
     try:
-        r = body(d, st, jobs, b['V'] if jobs == 1 else b['Vpar'], sc, ms,
-                 checker_fn, oracle)
+        r = body(d, st, jobs, V, sc, ms, checker_fn, oracle)
     except Exception as e:
         return f'{type(e).__name__}: {e}'
     return None if r in (None, 'runaway') else r
